@@ -221,12 +221,18 @@ def term_of(v):
         return ("?",)
     if v[0] == "closure":
         return ("fn", CLOSURE_DIGESTS.get(v[1], "?"))
+    if v[0] == "fnitem":
+        # a function item used as a predicate is the predicate that only calls it: `I::Token::is_whitespace` == `|c| c.is_whitespace()`
+        f = v[1]
+        return ("fn", f.get("name", "?") if isinstance(f, dict) else str(f).split("::")[-1])
     if v[0] == "sym":
         return v[1]
     if v[0] == "const":
         return ("const", v[2])
     if v[0] == "bool":
         return ("const", "true" if v[1] else "false")
+    if v[0] == "enum" and v[1] == "Option" and v[2] == "Some" and len(v[3]) == 1 and isinstance(v[3][0], tuple) and v[3][0][0] == "const":
+        return ("Some", ("const", v[3][0][2]))
     if v[0] == "cursor":
         return ("cursor", v[1])
     if v[0] == "altpos":
@@ -566,7 +572,8 @@ class Frame:
                 return ("secondary", v[1])
             if k == "sym":
                 return ("mem", v[1], ())
-            if k in ("cursor", "ckpt", "located", "optalt", "out", "tok", "span"):
+            if k in ("cursor", "ckpt", "located", "optalt", "out", "tok", "span") or (k == "enum" and v[1] == "Option" and v[3] and
+                                                                                        isinstance(v[3][0], tuple) and v[3][0][0] == "const"):
                 # reference-transparent abstract values (refs to them behave as the value)
                 return ("val", v)
         return ("unknown",)
@@ -798,7 +805,16 @@ class Frame:
             return ("bool", val.strip() == "true" or val.strip() == "const true")
         if ty == "()":
             return UNIT
-        return ("const", ty, val.replace("const ", "").strip())
+        v = val.replace("const ", "").strip()
+        m = re.match(r"^promoted&\[01([0-9a-f]{2})\]\+0:&std::option::Option<u8>$", v)
+        if m:      # a promoted `Some(b'x')` is the value `Some(x)`
+            return ("enum", "Option", "Some", (("const", "u8", "%d_u8" % int(m.group(1), 16)),))
+        # one spelling for the all-ones constant: `!0`, `u64::MAX`, `usize::MAX`, 18446744073709551615_u64
+        m = re.match(r"^(\d+)_?([ui]\d+|usize)?$", v)
+        if v.endswith("::MAX") or (m and ty in ("u8", "u16", "u32", "u64", "usize", "u128") and
+                                   int(m.group(1)) == (1 << {"u8": 8, "u16": 16, "u32": 32, "u64": 64, "usize": 64, "u128": 128}[ty]) - 1):
+            v = "MAX"
+        return ("const", ty, v)
 
     def rvalue(self, r, line):
         k = r["k"]
@@ -1052,6 +1068,22 @@ class Frame:
                 nv = ("optalt", cur[1] and variant == "Some", "S" if variant == "Some" else "N") + cur[3:]
                 f2.write_lv(lv, nv)
             s2.ev("refine", describe(cur), variant)
+            return s2
+        if isinstance(cur, tuple) and cur[0] == "sym" and isinstance(cur[1], tuple) and cur[1] and cur[1][0] == "cmp" \
+                and variant in ("Less", "Equal", "Greater"):
+            # `match a.cmp(&b)`: an arm is a comparison fact, the same atoms an if-chain over < and == produces
+            a, b = cur[1][1], cur[1][2]
+            if variant == "Less":
+                ft, fp = norm_cmp("Lt", a, b)
+            elif variant == "Greater":
+                ft, fp = norm_cmp("Gt", a, b)
+            else:
+                ft, fp = norm_cmp("Eq", a, b)
+            if contradicts(s2.facts, ft, fp):
+                return None
+            s2.facts = add_fact(s2.facts, (ft, fp))
+            f2.write_lv(lv, ("enum", "Ordering", variant, ()))
+            s2.ev("branch", repr_term(ft), fp, None)
             return s2
         if isinstance(cur, tuple) and cur[0] == "sym":
             # consult facts for consistency
